@@ -157,9 +157,10 @@ theorem parse_enum_eq (cls : ClsObj ν) (j : JEnum ν) :
 def fracJ (u : Nat) : Option (Int × Int) := (tsFrac u).map fun p => ((p.1 : Int), (p.2 : Int))
 
 /-- what `timestamp_to_json` as written returns, for EVERY datetime: the calendar text of the
-    whole second of the UTC-normalised reading (`instant / 10^6`), and the fraction `tsFrac` of
-    the microsecond OF THE ORIGINAL WALL CLOCK (`dt.microsecond` is read before `astimezone`) -/
-def tsJsonOf (d : DT) : TsText := ⟨⟨d.instant / 1000000⟩, fracJ (d.wall % 1000000).toNat⟩
+    whole second of the UTC-normalised reading (`instant / 10^6`) and the fraction `tsFrac` of THAT reading
+    (since the repair D52 `dt.microsecond` is read after `astimezone`; before it, the fraction was the one of
+    the original wall clock, which differs for a utcoffset that is not a whole number of seconds) -/
+def tsJsonOf (d : DT) : TsText := ⟨⟨d.instant / 1000000⟩, fracJ (d.instant % 1000000).toNat⟩
 
 /-- the model text of an instant (microseconds since the epoch): RFC 3339 in UTC with 0 / 3 / 6
     fractional digits and the suffix "Z" — what `JVal.tsStr us` stands for -/
@@ -208,32 +209,35 @@ theorem isoformat_replace (d : DT) : PyLeaf.isoformat (PyLeaf.replaceMicro0Naive
 
 /-- `_Timestamp.timestamp_to_json` as written, WHOLE, on every datetime (aware with any offset, or naive):
     the float arithmetic stays exact, the last branch is not reached, the result is `tsJsonOf` -/
+theorem dtMicro (w : Int) (o : Option Int) : PyLeaf.dtMicrosecond ⟨w, o⟩ = (((w % 1000000).toNat : Nat) : Int) := by
+  unfold PyLeaf.dtMicrosecond; simp only; omega
+
 theorem timestamp_to_json_eq (d : DT) : Src.timestamp_to_json d = .ok (tsJsonOf d) := by
   obtain ⟨wall, off⟩ := d
-  have hu : PyLeaf.dtMicrosecond ⟨wall, off⟩ = (((wall % 1000000).toNat : Nat) : Int) := by
-    unfold PyLeaf.dtMicrosecond; simp only; omega
-  have hlt : (wall % 1000000).toNat < 1000000 := by omega
   unfold Src.timestamp_to_json
-  rw [hu, SrcTie.fmul_us _ hlt, SrcTie.ok_bind]
   cases off with
   | none =>
+    have hlt : (wall % 1000000).toNat < 1000000 := by omega
     rw [if_neg (by simp [PyLeaf.tzinfoIsNotNone])]
+    rw [dtMicro, SrcTie.fmul_us _ hlt, SrcTie.ok_bind]
     simp only []
     rw [isoformat_replace, SrcTie.ok_bind, frac_chain _ hlt]
     simp only [tsJsonOf, DT.instant, Option.getD_none, Int.sub_zero]
   | some o =>
+    have hlt : ((wall - o) % 1000000).toNat < 1000000 := by omega
     rw [if_pos (by simp [PyLeaf.tzinfoIsNotNone])]
     simp only [PyLeaf.astimezoneUtc, SrcTie.ok_bind]
+    rw [dtMicro, SrcTie.fmul_us _ hlt, SrcTie.ok_bind]
     rw [isoformat_replace, SrcTie.ok_bind, frac_chain _ hlt]
     simp only [tsJsonOf, DT.instant, Option.getD_some]
 
 
 /-- UTC normalisation preserves the microsecond when the offset is a whole number of seconds
     (every IANA zone, every `timezone(timedelta(hours=…, minutes=…, seconds=…))`) -/
-theorem tsJsonOf_whole_offset (d : DT) (h : d.off.getD 0 % 1000000 = 0) : tsJsonOf d = tsJsonText d.instant := by
-  unfold tsJsonOf tsJsonText DT.instant
-  have : d.wall % 1000000 = (d.wall - d.off.getD 0) % 1000000 := by omega
-  rw [this]
+theorem tsJsonOf_whole_offset (d : DT) (_h : d.off.getD 0 % 1000000 = 0) : tsJsonOf d = tsJsonText d.instant := rfl
+
+/-- … and, since the repair D52, for EVERY offset -/
+theorem tsJsonOf_eq (d : DT) : tsJsonOf d = tsJsonText d.instant := rfl
 
 theorem fracUs (u : Nat) (_hlt : u < 1000000) :
     fracUsOf (fracJ u) = (u : Int) := by
